@@ -157,6 +157,7 @@ def defectOf (kind : String) (i j : Nat) (a v : Bytes) : Option Spec.Defect :=
   | "unknown" => some (.unknown j a v)
   | "swap" => some (.swap i)
   | "truncate" => some (.truncate i)
+  | "move" => some (.move i j)
   | _ => none
 
 /-- `E ver kind i j a v valid defective | outcome` -/
